@@ -4,6 +4,7 @@ invariant: a state is reachable when some finite list of ops, each with its own 
 recorded hash-map orders / random draws of that op), leads to it from `init cfg` without error.
 -/
 import Model.Router.Step
+import Proofs.Lemmas.Router.Rp1_Decomp
 namespace Router
 
 /-- run a list of ops; the oracle of each op is installed before it; an op whose `step` returns
@@ -57,5 +58,26 @@ theorem Reachable.induction {cfg : Config} (Inv : RState → Prop) (hinit : Inv 
     {s : RState} (hr : Reachable cfg s) : Inv s := by
   obtain ⟨ops, hops⟩ := hr
   exact run_invariant Inv hstep ops _ _ hinit hops
+
+/-! kernel-executable form of `run` (see the end of Rp1_Decomp.lean): closed examples are evaluated
+on `runX` by `rfl` / `decide` and transferred with `run_eq_runX` -/
+
+def runX (s : RState) : List (Op × List Choice) → M RState
+  | [] => .ok s
+  | (op, choices) :: rest =>
+    match stepX { s with oracle := choices } op with
+    | .error e => .error e
+    | .ok (s', _) => runX s' rest
+
+theorem run_eq_runX : ∀ (ops : List (Op × List Choice)) (s : RState), run s ops = runX s ops
+  | [], s => rfl
+  | (op, ch) :: rest, s => by
+    simp only [run, runX, step_eqX]
+    split
+    · rfl
+    · exact run_eq_runX rest _
+
+theorem Reachable.ofX {cfg : Config} {s : RState} (ops : List (Op × List Choice))
+    (h : runX (init cfg) ops = .ok s) : Reachable cfg s := ⟨ops, by rw [run_eq_runX]; exact h⟩
 
 end Router
